@@ -156,7 +156,7 @@ Proof.
         rewrite Hsk. rewrite take_digits_app by (assumption || exact Hdd). cbn [app].
         unfold width_of, width_ref. destruct ds as [|x ds'].
         -- cbn [app]. rewrite H37, Ht, Ea. reflexivity.
-        -- destruct (Nat.ltb_spec 19 (length (x :: ds'))); [lia|]. cbn [app]. rewrite H37, Ht, Ea. reflexivity.
+        -- destruct (Nat.ltb_spec 9 (length (x :: ds'))); [lia|]. cbn [app]. rewrite H37, Ht, Ea. reflexivity.
       * rewrite !app_length in Hf. cbn [length] in Hf. lia.
 Qed.
 
